@@ -213,15 +213,40 @@ fn run_case(sink: &mut Sink, defs: &[Def], text: &str, qs: &[u32], verbose: bool
             for (i, ch) in probe.chars().enumerate() {
                 v.push((ch as u32, buf.cat_at_char(i).bits()));
             }
-            Ok::<_, String>(v)
+            // the same classes through cat_of_range (what the OOV providers and the path-rewrite plugins read): a range of one
+            // character has that character's classes, a run the intersection of its characters' classes (marker classes
+            // NOOOVBOW / NOOOVBOW2 included), the empty range none
+            use sudachi::input_text::InputTextIndex;
+            let n = probe.chars().count();
+            let mut ranges = vec![];
+            for i in 0..n {
+                for len in [1usize, 2, 3, 0] {
+                    if i + len <= n {
+                        ranges.push((i, i + len, buf.cat_of_range(i..i + len).bits()));
+                    }
+                }
+            }
+            Ok::<_, String>((v, ranges))
         });
         match r {
-            Ok(Ok(v)) => {
-                for (c, got) in v {
-                    if got != naive(defs, c) {
-                        bad = Some(format!("InputBuffer (reused object) reports {:#x} for U+{:04X}, union of covering lines is {:#x}", got, c, naive(defs, c)));
+            Ok(Ok((v, ranges))) => {
+                for (c, got) in &v {
+                    if *got != naive(defs, *c) {
+                        bad = Some(format!("InputBuffer (reused object) reports {:#x} for U+{:04X}, union of covering lines is {:#x}", got, c, naive(defs, *c)));
                         break;
                     }
+                }
+                if bad.is_none() {
+                    let pc: Vec<u32> = probe.chars().map(|c| c as u32).collect();
+                    for (a, b, got) in ranges {
+                        let want = if a == b { 0 } else { pc[a..b].iter().fold(u32::MAX, |acc, c| acc & naive(defs, *c)) };
+                        if got != want {
+                            bad = Some(format!("InputBuffer::cat_of_range({}..{}) over the characters {:?} reports {:#x}, the intersection of their classes is {:#x}",
+                                a, b, pc[a..b].iter().map(|c| format!("U+{:04X}", c)).collect::<Vec<_>>(), got, want));
+                            break;
+                        }
+                    }
+                    sink.tag("classes_through_cat_of_range");
                 }
             }
             Ok(Err(e)) => bad = Some(format!("building an input buffer over the query characters failed: {}", e)),
@@ -325,7 +350,7 @@ fn malformed(sink: &mut Sink, rng: &mut Rng, n: usize) {
 
 pub fn run(args: &Args) {
     let mut sink = Sink::new("C17", &args.out, &["Model.CharCat", "Model.CharDefText"], args.seed, &args.tier);
-    sink.rule("random char.def files (0..13 lines over a small pool of boundary points incl. 0, surrogate-gap and plane-16 edges; duplicates, single points, empty class lists, comments) x query points {every range end and its +-2 neighbours, 0, U+D7FF, U+E000, U+10FFFF, random}; non-trivial = at least two lines overlap or touch; distinct by generated Coq term");
+    sink.rule("random char.def files (0..13 lines over a small pool of boundary points incl. 0, surrogate-gap and plane-16 edges; duplicates, single points, empty class lists, comments) x query points {every range end and its +-2 neighbours, 0, U+D7FF, U+E000, U+10FFFF, random}; non-trivial = at least two lines overlap or touch; distinct by generated Coq term; the classes are also read where the analysis reads them: through one reused InputBuffer with cat_at_char and with cat_of_range (single characters = their classes, runs of 2 and 3 = the intersection, empty range = none); every 60th file through the configuration route, incl. the resolution order of a relative characterDefinitionFile (path > resource dir > root dir > current directory) with same-named decoy files carrying marker classes at every lower-priority location and the process working directory changed for the stage");
     let mut reuse = Reuse { buf: InputBuffer::default(), dict_bytes: std::fs::read(format!("{}/sudachi/tests/resources/system.dic.test", repo())).unwrap() };
     if let Some(p) = &args.replay {
         let v: Value = serde_json::from_str(&std::fs::read_to_string(p).unwrap()).unwrap();
@@ -348,6 +373,11 @@ pub fn run(args: &Args) {
         let qs = queries(&defs, &mut rng, true);
         println!("definition file:\n{}", text);
         run_case(&mut sink, &defs, &text, &qs, true, &mut reuse);
+        if !case["resolution"].is_null() || !case["configured"].is_null() {
+            // the configuration route, incl. the resolution order with decoy files in the lower-priority locations
+            let system = reuse.dict_bytes.clone();
+            run_configured(&mut sink, args, &defs, &text, &qs, &system);
+        }
         sink.finish();
         return;
     }
@@ -374,6 +404,23 @@ pub fn run(args: &Args) {
         let qs = queries(&defs, &mut rng, true);
         run_case(&mut sink, &defs, text, &qs, false, &mut reuse);
         sink.tag("corpus_odd_spellings");
+    }
+    // marker classes (NOOOVBOW, NOOOVBOW2, not part of ALL) next to ordinary ones: they must survive every way of reading
+    {
+        let k = |n: &str| NAMES.iter().position(|x| x.0 == n).unwrap();
+        let defs = vec![
+            Def { lo: 0x41, hi: 0x5A, cats: vec![k("ALPHA")], single: false },
+            Def { lo: 0x42, hi: 0x42, cats: vec![k("NOOOVBOW")], single: true },
+            Def { lo: 0x43, hi: 0x44, cats: vec![k("NOOOVBOW2"), k("GREEK")], single: false },
+            Def { lo: 0x61, hi: 0x7A, cats: vec![k("ALL"), k("NOOOVBOW")], single: false },
+            Def { lo: 0x30, hi: 0x39, cats: vec![k("NOOOVBOW2")], single: false },
+        ];
+        let text = render(&defs, &mut rng);
+        let qs = queries(&defs, &mut rng, true);
+        run_case(&mut sink, &defs, &text, &qs, false, &mut reuse);
+        let system = reuse.dict_bytes.clone();
+        run_configured(&mut sink, args, &defs, &text, &qs, &system);
+        sink.tag("corpus_marker_classes");
     }
     let n = args.n(1200, 20000);
     let system = reuse.dict_bytes.clone();
@@ -436,7 +483,91 @@ fn run_configured(sink: &mut Sink, args: &Args, defs: &[Def], text: &str, qs: &[
             Err(p) => sink.fail(id, &format!("loading a dictionary configured with this definition file ({}) panicked: {}", vname, p), ""),
         }
     }
+    run_resolution_order(sink, args, defs, text, qs, system, &dir);
     let _ = std::fs::remove_dir_all(&dir);
+}
+
+/// Which file a relative `characterDefinitionFile` names.  Config::complete_path / ConfigBuilder::build (config.rs) resolve:
+///   1. an absolute path is taken as it is;
+///   2. otherwise the first EXISTING candidate among the anchors, in this order: `path` of the configuration, the resource
+///      directory (ConfigBuilder::resource_path, default <crate>/../resources), the root directory (directory of the
+///      configuration file, ConfigBuilder::root_directory);
+///   3. otherwise the path relative to the current working directory, if it exists;
+///   4. otherwise an error.
+/// Files of the same name with DIFFERENT classes (the genuine lines + one line covering everything with a marker class
+/// USER1..USER4 per location) are placed at the lower-priority locations: the classes the dictionary reports must be
+/// those of the file the order above selects.  The process changes its working directory for this stage only
+/// (single-threaded harness) and changes back.
+fn run_resolution_order(sink: &mut Sink, args: &Args, defs: &[Def], text: &str, qs: &[u32], system: &[u8], path_dir: &std::path::Path) {
+    use sudachi::config::ConfigBuilder;
+    use sudachi::dic::dictionary::JapaneseDictionary;
+    use sudachi::dic::storage::{Storage, SudachiDicData};
+    let Ok(orig_cwd) = std::env::current_dir() else { return };
+    let abs = |p: std::path::PathBuf| if p.is_absolute() { p } else { orig_cwd.join(p) };
+    let path_dir = abs(path_dir.to_path_buf());
+    let base = abs(args.work.join("c17anchors"));
+    let _ = std::fs::remove_dir_all(&base);
+    let (resdir, rootdir, cwd) = (base.join("resource"), base.join("root"), base.join("cwd"));
+    for d in [&resdir, &rootdir, &cwd] {
+        std::fs::create_dir_all(d).unwrap();
+    }
+    let marker = |k: usize| NAMES.iter().find(|x| x.0 == ["USER1", "USER2", "USER3", "USER4"][k]).unwrap().1;
+    let decoy = |k: usize| format!("{}0x0000..0x10FFFE {}\n", if text.ends_with('\n') || text.is_empty() { text.to_string() } else { format!("{}\n", text) }, ["USER1", "USER2", "USER3", "USER4"][k]);
+    let name = "analysis_char.def";
+    let pos = json!(["名詞", "普通名詞", "一般", "*", "*", "*"]);
+    // scenario: which locations hold a file (path, resource, root, cwd); the first of them in this order must be used
+    for present in [[true, true, true, true], [false, true, true, true], [false, false, true, true], [false, false, false, true], [true, false, false, true], [false, true, false, true]] {
+        let locs = [&path_dir, &resdir, &rootdir, &cwd];
+        for (k, loc) in locs.iter().enumerate() {
+            let f = loc.join(name);
+            let _ = std::fs::remove_file(&f);
+            if present[k] {
+                // the file in `path` is the genuine one (marker-free), the others carry their marker
+                std::fs::write(&f, if k == 0 { text.to_string() } else { decoy(k) }).unwrap();
+            }
+        }
+        let selected = present.iter().position(|x| *x).unwrap();
+        let extra = if selected == 0 { 0 } else { marker(selected) };
+        let cfg = json!({"path": path_dir.to_string_lossy(), "characterDefinitionFile": name,
+            "oovProviderPlugin": [{"class": "com.worksap.nlp.sudachi.SimpleOovPlugin", "oovPOS": pos, "leftId": 8, "rightId": 8, "cost": 6000}]});
+        let mut d = desc(defs, text);
+        d["resolution"] = json!({"file_in": {"path": present[0], "resource_dir": present[1], "root_dir": present[2], "cwd": present[3]}});
+        sink.tag(&format!("resolution_order:selected={}", ["path", "resource_dir", "root_dir", "cwd"][selected]));
+        let id = sink.case_rust_only(d, true);
+        if std::env::set_current_dir(&cwd).is_err() {
+            continue;
+        }
+        let loaded = catch(|| {
+            let c = ConfigBuilder::from_bytes(cfg.to_string().as_bytes()).map_err(|e| format!("{:?}", e))?.resource_path(resdir.clone()).root_directory(rootdir.clone()).build();
+            JapaneseDictionary::from_cfg_storage(&c, SudachiDicData::new(Storage::Owned(system.to_vec()))).map_err(|e| format!("{:?}", e))
+        });
+        std::env::set_current_dir(&orig_cwd).unwrap();
+        match loaded {
+            Ok(Ok(dict)) => {
+                for &c in qs {
+                    let ch = char::from_u32(c).unwrap();
+                    // U+10FFFF lies outside the marker line
+                    let want = if c <= 0x10FFFE && extra != 0 { (naive(defs, c) | extra) & !if naive_is_default(defs, c) { 1 } else { 0 } } else { naive(defs, c) };
+                    let got = dict.grammar().character_category.get_category_types(ch).bits();
+                    if got != want {
+                        sink.fail(id, &format!("characterDefinitionFile {:?} with files in {{path: {}, resource dir: {}, root dir: {}, current directory: {}}}: the file in {} must be used, but U+{:04X} has classes {:#x} instead of {:#x} (marker classes: resource dir USER2, root dir USER3, current directory USER4)",
+                            name, present[0], present[1], present[2], present[3], ["`path`", "the resource directory", "the root directory", "the current directory"][selected], c, got, want), "");
+                        break;
+                    }
+                }
+            }
+            other => sink.fail(id, &format!("characterDefinitionFile {:?} with files in {{path: {}, resource dir: {}, root dir: {}, cwd: {}}} did not load: {:?}", name, present[0], present[1], present[2], present[3], other.map(|r| r.map(|_| ()))), ""),
+        }
+    }
+    for loc in [&path_dir] {
+        let _ = std::fs::remove_file(loc.join(name));
+    }
+    let _ = std::fs::remove_dir_all(&base);
+}
+
+/// no definition line covers the code point (the reported class is then DEFAULT, which a covering marker line replaces)
+fn naive_is_default(defs: &[Def], c: u32) -> bool {
+    !defs.iter().any(|d| d.lo <= c && c <= d.hi && !d.cats.is_empty())
 }
 
 /// independent re-reading of a shipped definition file (for the corpus cases only)
